@@ -666,3 +666,27 @@ def const_bytes_of(fn, operand):
         v = o[1]["v"]
         return v if isinstance(v, str) else bytes(v).decode("latin-1")
     return None
+
+
+def closure_upvars(facts, cfn):
+    """for a closure body: list (by upvar index) of the provenance origin, in the parent function, of each captured value"""
+    parent = facts.fns.get(cfn.parent)
+    if parent is None:
+        return []
+    for b in parent.blocks:
+        for st in b["s"]:
+            if st[0] == "=" and st[2][0] == "agg" and st[2][1].get("k") == "closure" and st[2][1].get("def") == cfn.id:
+                return [provenance(parent, op, transparent=())[-1] for op in st[2][2]]
+    return []
+
+
+def upvar_index(cfn, operand):
+    """index of the captured variable an operand of a closure body refers to (through derefs/reborrows), or None"""
+    o = provenance(cfn, operand, transparent=())[-1]
+    if o[0] == "param" and o[1] == 1:
+        fs = [p for p in o[2] if p != "*"]
+        if fs:
+            m = re.match(r"f(\d+):", fs[0])
+            if m:
+                return int(m.group(1))
+    return None
